@@ -1403,7 +1403,11 @@ def install_models(I):
     M["alloc::vec::Vec::drain"] = vec_drain
 
     def vec_last(I, a, f):
-        v = deref(a[0])
+        v = a[0] if isinstance(a[0], SlicePtr) else deref(a[0])
+        if isinstance(v, SlicePtr):
+            if v.len == 0:
+                return Agg([], "adt", "core::option::Option", "None")
+            return Agg([Ptr(v.c, v.start + v.len - 1)], "adt", "core::option::Option", "Some")
         if not v.items:
             return Agg([], "adt", "core::option::Option", "None")
         return Agg([Ptr(v.items, len(v.items) - 1)], "adt", "core::option::Option", "Some")
